@@ -34,7 +34,7 @@ def matrix_with_spectrum(rng, n, p, s, cplx=False):
     return (U * s[:r]) @ V.conj().T
 
 
-def make_case(rng, quick=True, force=None):
+def make_case(rng, quick=True, force=None, missing=False):
     """one structured, mostly-valid configuration for an EOF-type fit"""
     force = force or {}
     cls = force.get("cls", rng.choice(["EOF", "EOF", "EOF", "ComplexEOF", "HilbertEOF", "ExtendedEOF"]))
@@ -73,7 +73,7 @@ def make_case(rng, quick=True, force=None):
                use_coslat=use_coslat, pole=bool(use_coslat and nlat and nlat > 1 and rng.random() < 0.4), weights=None if weights is None else weights.tolist(), solver=solver,
                random_state=seed, spectrum=kind, scale=scale, cplx=cplx, k=None,
                X_re=np.real(X).tolist(), X_im=(np.imag(X).tolist() if cplx else None))
-    if cls in ("EOF", "ComplexEOF") and n >= 6 and rng.random() < 0.2:
+    if missing and cls in ("EOF", "ComplexEOF") and n >= 6 and rng.random() < 0.2:
         # one or two entirely missing samples: they are deleted before the decomposition, N is the number of samples that are left
         cfg["missing_rows"] = sorted(set(int(x) for x in rng.integers(0, n, size=int(rng.integers(1, 3)))))
     if cls == "ExtendedEOF":
